@@ -46,6 +46,15 @@ pub fn int_pool() -> Vec<i64> {
         2097152,
         (1 << 32) - 1,
         (1 << 32) + 1,
+        // the boundaries of the narrower integer types
+        -(1 << 31),
+        -(1 << 31) - 1,
+        -(1 << 31) + 1,
+        32767,
+        -32768,
+        65535,
+        127,
+        -128,
     ]
 }
 
